@@ -19,6 +19,7 @@ EXPLANATION = ('C20: unsequenced read/consume pairs over every library function 
 ASSUMPTIONS = ['code generation, optimisation levels and compilers other than g++ 12 / clang++ 14 are not analysed',
                'R-MOVE treats a standard-library callee taking T&& as consuming its argument']
 UNITS = None
+VALUE_KEY_CLASSES = ('AnyId',)
 
 
 def check(ctx):
@@ -109,7 +110,9 @@ def check_init(ctx, tu, rule='C20.I', only=None):
         # Uses inside the library are judged where they occur (the `indet` verdict on the enclosing constructor's
         # initialiser), which is how the queue counters were found. Judging the defaulted constructor itself would
         # demand more than the property states (checker correction, DESIGN.md section 5).
-        if f.d.get('ctor') == 'default' and (f.d.get('implicit') or f.d.get('defaulted')):
+        # Exception: AnyId is a key type whose default-constructed value is itself a key (the id of "no value": zero digest, empty storage);
+        # its default constructor is judged in whatever form it is written.
+        if f.d.get('ctor') == 'default' and (f.d.get('implicit') or f.d.get('defaulted')) and f.cls not in VALUE_KEY_CLASSES:
             continue
         bad = []
         for i in f.d.get('inits', []):
